@@ -50,6 +50,24 @@ def _functions(mods):
                         yield f'{mod}:{n.name}.{k.name}', mod, n.name, k, n.body
 
 
+def _nested_defs(fn):
+    """(containing statement list, def) for the functions defined directly in fn's own scope (at any block depth)."""
+    def rec(stmts):
+        for st in stmts:
+            if isinstance(st, ast.FunctionDef):
+                yield stmts, st
+                continue
+            if isinstance(st, ast.ClassDef):
+                continue
+            for fld in ('body', 'orelse', 'finalbody'):
+                sub = getattr(st, fld, None)
+                if isinstance(sub, list) and sub and isinstance(sub[0], ast.stmt):
+                    yield from rec(sub)
+            for h in getattr(st, 'handlers', []) or []:
+                yield from rec(h.body)
+    yield from rec(fn.body)
+
+
 def _kind(fn):
     decs = [ast.unparse(d) for d in fn.decorator_list]
     if not decs:
@@ -61,17 +79,34 @@ def _kind(fn):
     return None
 
 
+def _own_nodes(fn):
+    """Nodes of the function's own scope: nested function and lambda bodies are left out (their names are theirs)."""
+    stack = list(fn.body) if isinstance(fn, (ast.FunctionDef, ast.Lambda)) and not isinstance(fn, ast.Lambda) else [fn]
+    while stack:
+        n = stack.pop()
+        yield n
+        for c in ast.iter_child_nodes(n):
+            if isinstance(c, (ast.FunctionDef, ast.Lambda, ast.ClassDef)):
+                # the def statement itself belongs to this scope (decorators, defaults), its body does not
+                yield c
+                if isinstance(c, ast.FunctionDef):
+                    stack.extend(c.decorator_list)
+                    stack.extend(d for d in c.args.defaults + c.args.kw_defaults if d is not None)
+                continue
+            stack.append(c)
+
+
 def _contains(node, types):
     return any(isinstance(x, types) for x in ast.walk(node))
 
 
 def _returns_in_loops(fn):
     body = [s for s in fn.body if not (isinstance(s, ast.Expr) and isinstance(s.value, ast.Constant))]
-    for x in ast.walk(fn):
+    for x in _own_nodes(fn):
         if isinstance(x, (ast.For, ast.While, ast.With, ast.Try)) and x is not fn:
             if isinstance(x, ast.Try) and body and x is body[-1] and not x.finalbody:
                 continue          # `try: return f(..) except E: raise/return ..` as the last statement: handled by _conv
-            for y in ast.walk(x):
+            for y in _own_nodes(x):
                 if isinstance(y, ast.Return):
                     return True
     return False
@@ -120,7 +155,7 @@ class _Forward(ast.NodeTransformer):
 
 
 def _eligible(fn):
-    if not fn.name.startswith('_') or (fn.name.startswith('__') and fn.name.endswith('__')):
+    if fn.name.startswith('__') and fn.name.endswith('__'):
         return False
     if _kind(fn) is None:
         return False
@@ -128,9 +163,13 @@ def _eligible(fn):
     if (a.vararg or a.kwarg) and not _forwards_only(fn):
         return False
     inner = [x for x in ast.walk(fn) if x is not fn]
-    if any(isinstance(x, (ast.FunctionDef, ast.AsyncFunctionDef, ast.Lambda, ast.Yield, ast.YieldFrom, ast.Await, ast.Global, ast.Nonlocal,
-                          ast.ClassDef)) for x in inner):
+    if any(isinstance(x, (ast.AsyncFunctionDef, ast.Yield, ast.YieldFrom, ast.Await, ast.Global, ast.Nonlocal, ast.ClassDef)) for x in inner):
         return False
+    # closures defined by the helper (a closure factory) come along; their own returns are theirs
+    if any(isinstance(x, (ast.FunctionDef, ast.Lambda)) for x in inner) and any(
+            isinstance(y, ast.Name) and isinstance(y.ctx, ast.Store) and y.id in {a.arg for a in fn.args.posonlyargs + fn.args.args + fn.args.kwonlyargs}
+            for y in _own_nodes(fn)):
+        return False          # a parameter that is re-bound while closures capture it: not a plain substitution
     if _returns_in_loops(fn):
         return False
     if sum(isinstance(x, ast.stmt) for x in inner) > MAX_STMTS:
@@ -159,7 +198,15 @@ def _always_exits(stmts):
 
 
 def _has_return(stmts):
-    return any(isinstance(y, ast.Return) for s in stmts for y in ast.walk(s))
+    for s in stmts:
+        if isinstance(s, ast.Return):
+            return True
+        if isinstance(s, (ast.FunctionDef, ast.ClassDef)):
+            continue
+        for y in _own_nodes(s):
+            if isinstance(y, ast.Return):
+                return True
+    return False
 
 
 def _conv(stmts, make):
@@ -195,6 +242,32 @@ def _conv(stmts, make):
 class _Subst(ast.NodeTransformer):
     def __init__(self, mapping):
         self.mapping = mapping
+
+    def _inner(self, node, bound):
+        inner = {k: v for k, v in self.mapping.items() if k not in bound}
+        return _Subst(inner)
+
+    def visit_FunctionDef(self, node):
+        # the def's own name may be one of the renamed locals of the helper; its parameters and locals shadow the mapping
+        if node.name in self.mapping and isinstance(self.mapping[node.name], ast.Name):
+            node.name = self.mapping[node.name].id
+        node.decorator_list = [self.visit(d) for d in node.decorator_list]
+        node.args.defaults = [self.visit(d) for d in node.args.defaults]
+        node.args.kw_defaults = [self.visit(d) if d is not None else None for d in node.args.kw_defaults]
+        a = node.args
+        bound = {x.arg for x in a.posonlyargs + a.args + a.kwonlyargs} | ({a.vararg.arg} if a.vararg else set()) | ({a.kwarg.arg} if a.kwarg else set())
+        bound |= {y.id for y in _own_nodes(node) if isinstance(y, ast.Name) and isinstance(y.ctx, (ast.Store, ast.Del))}
+        bound |= {y.name for y in _own_nodes(node) if isinstance(y, ast.FunctionDef)}
+        sub = self._inner(node, bound)
+        node.body = [sub.visit(st) for st in node.body]
+        return node
+
+    def visit_Lambda(self, node):
+        a = node.args
+        bound = {x.arg for x in a.posonlyargs + a.args + a.kwonlyargs} | ({a.vararg.arg} if a.vararg else set()) | ({a.kwarg.arg} if a.kwarg else set())
+        node.args.defaults = [self.visit(d) for d in node.args.defaults]
+        node.body = self._inner(node, bound).visit(node.body)
+        return node
 
     def visit_Name(self, node):
         if node.id in self.mapping:
@@ -245,6 +318,21 @@ class _Inliner:
             if len(same) != 1:
                 continue
             out[fn.name] = (key, mod, cls, fn, container)
+        # closures that are only ever called by their sibling closures (a check shared by two readers, say)
+        all_names = [f2.name for _k, _m, _c, f2, _ in _functions(self.mods)]
+        for key, mod, cls, fn, container in _functions(self.mods):
+            for lst, g in _nested_defs(fn):
+                all_names.append(g.name)
+        for key, mod, cls, fn, container in _functions(self.mods):
+            for lst, g in _nested_defs(fn):
+                k2 = f'{key}.{g.name}'
+                if k2 in self.baseline or any(b.startswith(k2 + '#') for b in self.baseline) or not _eligible(g) or g.decorator_list:
+                    continue
+                if all_names.count(g.name) != 1 or g.name in out:
+                    continue
+                if _digest(g) in {d for kk, d in self.baseline.items() if kk.startswith(key + '.')}:
+                    continue      # a renamed closure of the reviewed tree
+                out[g.name] = (k2, mod, None, g, lst)
         return out
 
     def _call_kind(self, call, name, info):
@@ -447,10 +535,19 @@ class _Inliner:
                     return None
                 bind[p] = d
         fn = self._default_idiom(fn, bind)
-        assigned = {x.id for x in ast.walk(fn) if isinstance(x, ast.Name) and isinstance(x.ctx, (ast.Store, ast.Del))}
-        for x in ast.walk(fn):
+        assigned = {x.id for x in _own_nodes(fn) if isinstance(x, ast.Name) and isinstance(x.ctx, (ast.Store, ast.Del))}
+        for x in _own_nodes(fn):
             if isinstance(x, ast.ExceptHandler) and x.name:
                 assigned.add(x.name)
+            if isinstance(x, ast.FunctionDef):
+                assigned.add(x.name)
+        has_closures = any(isinstance(x, (ast.FunctionDef, ast.Lambda)) for x in ast.walk(fn) if x is not fn)
+        if has_closures and caller is not None:
+            # what the closures capture must stay what it is: an argument name the caller re-binds cannot be captured in its place
+            caller_stores = {y.id for y in ast.walk(caller) if isinstance(y, ast.Name) and isinstance(y.ctx, (ast.Store, ast.Del))}
+            for p_, a_ in bind.items():
+                if isinstance(a_, ast.Name) and a_.id in caller_stores:
+                    return None
         prefix = []
         mapping = {}
         # `v = helper(v, ...)`: the caller's v is dead once the statement completes, so the helper's parameter can be v itself
@@ -608,11 +705,9 @@ class _Inliner:
             out.extend(cur)
         return out, changed
 
-    def run(self):
-        cands = self.candidates()
-        if not cands:
-            return {}
-        # every reference to a candidate must be a recognised call; otherwise drop the candidate
+    def _usable(self, cands):
+        """Candidates all of whose references are recognised calls."""
+        cands = dict(cands)
         for mod, tree in self.mods.items():
             if mod == 'luts':
                 continue
@@ -629,6 +724,16 @@ class _Inliner:
                         named = (isinstance(f, ast.Name) and f.id == nm) or (isinstance(f, ast.Attribute) and f.attr == nm)
                         if named and self._call_kind(x, nm, cands[nm]) is None:
                             cands.pop(nm, None)
+        return cands
+
+    def run(self):
+        cands = self.candidates()
+        if not cands:
+            return {}
+        # every reference to a candidate must be a recognised call; otherwise drop the candidate
+        dropped = set(cands)
+        cands = self._usable(cands)
+        dropped -= set(cands)
         touched = {}
         # helpers may call helpers: integrate one at a time, innermost first by repeating until nothing changes
         for _round in range(16):
@@ -668,6 +773,8 @@ class _Inliner:
                                         not any(x is y for y in ast.walk(info[3])):
                                     raise _Blocked()
                         info[4].remove(info[3])
+                        if not info[4]:
+                            info[4].append(ast.Pass())
                         self.done.append(info[0])
                         cands.pop(name)
                         # consistent line numbers for the next helper (and for the rules): re-parse what was rewritten
@@ -675,14 +782,19 @@ class _Inliner:
                             if m2 != 'luts' and (m2 in touched or m2 == info[1]):
                                 ast.fix_missing_locations(self.mods[m2])
                                 self.mods[m2] = ast.parse(ast.unparse(self.mods[m2]))
-                        remaining = set(cands)
-                        cands = {k: v for k, v in self.candidates().items() if k in remaining}
+                        # (integration can bring new candidates with it: closures of an integrated factory, under their new names)
+                        fresh = self.candidates()
+                        newly = {k: v for k, v in fresh.items() if k not in cands and k not in dropped}
+                        usable_new = self._usable(newly) if newly else {}
+                        dropped |= set(newly) - set(usable_new)
+                        cands = {k: v for k, v in fresh.items() if k in cands or k in usable_new}
                         progress = True
                         break
                 except _Blocked:
                     for m, t in backup.items():
                         self.mods[m] = t
                     # the restored trees are copies: candidate records point into the old trees, so recompute them
+                    dropped.add(name)
                     cands = {k: v for k, v in self.candidates().items() if k in cands and k != name}
                     progress = True
                     break
@@ -855,6 +967,10 @@ def _noneness(v):
         return v.value is None
     if isinstance(v, (ast.Tuple, ast.List, ast.Dict, ast.Set, ast.JoinedStr)):
         return False
+    if isinstance(v, ast.Call) and isinstance(v.func, (ast.Name, ast.Attribute)):
+        last = v.func.id if isinstance(v.func, ast.Name) else v.func.attr
+        if last[:1].isupper():
+            return False          # instantiating a class (CreationError(...)) never gives None
     return None
 
 
@@ -995,6 +1111,15 @@ def _copyprop(fn):
         while i < len(sub):
             a = sub[i]
             if isinstance(a, ast.Assign) and len(a.targets) == 1 and isinstance(a.targets[0], ast.Tuple) and isinstance(a.value, ast.Tuple) \
+                    and len(a.targets[0].elts) == len(a.value.elts) and all(isinstance(t, ast.Attribute) and _pure(t) for t in a.targets[0].elts) \
+                    and all(isinstance(e, (ast.Name, ast.Constant)) for e in a.value.elts):
+                # `self.a, self.b = (x, y)` with plain names on the right: two assignments
+                new = [ast.Assign(targets=[t], value=e) for t, e in zip(a.targets[0].elts, a.value.elts)]
+                sub[i:i + 1] = new
+                changed = True
+                i += len(new)
+                continue
+            if isinstance(a, ast.Assign) and len(a.targets) == 1 and isinstance(a.targets[0], ast.Tuple) and isinstance(a.value, ast.Tuple) \
                     and len(a.targets[0].elts) == len(a.value.elts) and all(isinstance(t, ast.Name) for t in a.targets[0].elts):
                 tn = [t.id for t in a.targets[0].elts]
                 safe = all(not any(isinstance(y, ast.Name) and y.id == tn[j] for y in ast.walk(a.value.elts[k]))
@@ -1012,6 +1137,26 @@ def _copyprop(fn):
         i = 0
         while i < len(sub):
             a = sub[i]
+            glob_attr = False
+            if isinstance(a, ast.Assign) and len(a.targets) == 1 and isinstance(a.targets[0], ast.Name) and isinstance(a.value, ast.Attribute) \
+                    and _stores(fn, a.targets[0].id) == 1:
+                root = a.value
+                while isinstance(root, ast.Attribute):
+                    root = root.value
+                # `f = module.function`: a global's attribute (the root is neither a parameter nor assigned in the function)
+                glob_attr = isinstance(root, ast.Name) and _stores(fn, root.id) == 0
+            if glob_attr:
+                u = a.targets[0].id
+                later = sub[i + 1:]
+                nested = any(isinstance(x, (ast.FunctionDef, ast.Lambda)) and x is not fn for x in ast.walk(fn))
+                reads_all = sum(1 for x in ast.walk(fn) if isinstance(x, ast.Name) and x.id == u and isinstance(x.ctx, ast.Load))
+                reads_later = sum(1 for st in later for x in ast.walk(st) if isinstance(x, ast.Name) and x.id == u and isinstance(x.ctx, ast.Load))
+                if not nested and reads_all == reads_later:
+                    sb = _Subst({u: a.value})
+                    sub[i + 1:] = [sb.visit(st) for st in later]
+                    del sub[i]
+                    changed = True
+                    continue
             if isinstance(a, ast.Assign) and len(a.targets) == 1 and isinstance(a.targets[0], ast.Name) and isinstance(a.value, ast.Name) \
                     and a.targets[0].id != a.value.id and _stores(fn, a.targets[0].id) == 1:
                 u, v = a.targets[0].id, a.value.id
